@@ -48,6 +48,21 @@ namespace drv {
       if (v1.decl_set().size() != 2 || &*v1.decl_set().position(0) != &v1 || &*v1.decl_set().position(1) != &v2 || p1.decl_set().size() != 2 || &*p1.decl_set().position(1) != &p2) bad |= 4u;
       return bad;
    }
+   // Warehouse contents are copied into the Lexicon before a product / sum is keyed on them: the node neither aliases nor follows the caller's object
+   unsigned st_warehouse(L& lx, const Type& t, const Type& u)
+   {
+      unsigned bad = 0;
+      auto* w = new impl::Warehouse<Type>{ }; w->push_back(t); w->push_back(u);
+      const ipr::Product& p = lx.get_product(*w); const ipr::Sum& sm = lx.get_sum(*w);
+      if (p.size() != 2 || &p[0] != &t || &p[1] != &u || sm.size() != 2 || &sm[0] != &t || &sm[1] != &u) bad |= 1u;      // element by element what was asked for
+      if (static_cast<const void*>(&p.operand()) == static_cast<const void*>(&static_cast<const ipr::Sequence<Type>&>(w->rep()))) bad |= 2u;      // not the caller's own sequence object
+      w->push_back(t);                                                            // the client goes on using its warehouse
+      if (p.size() != 2 || &p[0] != &t || &p[1] != &u || sm.size() != 2) bad |= 4u;     // the nodes read as before
+      auto* w2 = new impl::Warehouse<Type>{ }; w2->push_back(t); w2->push_back(u);
+      if (&lx.get_product(*w2) != &p || &lx.get_sum(*w2) != &sm) bad |= 8u;      // equal contents in another warehouse: the same nodes
+      if (&lx.get_product(*w) == &p) bad |= 16u;                                // different contents (three elements now): a different node
+      return bad;
+   }
    // a unified node obtained earlier is still what the same request returns after other requests, and reads as before
    unsigned st_unified(L& lx, const Type& t, const Type& u, const Expr& e)
    {
